@@ -1047,6 +1047,14 @@ class UserType(TupleType):
 
     @classmethod
     def serialize_safe(cls, val, protocol_version):
+        try:
+            num_items = len(val)
+        except TypeError:
+            num_items = None  # an object with attributes rather than a sequence
+        if num_items is not None and num_items > len(cls.subtypes):
+            raise ValueError("Expected at most %d items for user type %s, but got %d: %s" %
+                             (len(cls.subtypes), cls.typename, num_items, val))
+
         proto_version = max(3, protocol_version)
         buf = io.BytesIO()
         for i, (fieldname, subtype) in enumerate(zip(cls.fieldnames, cls.subtypes)):
